@@ -5,7 +5,7 @@ P = {
     "level_text": "exploration: each generated self-calibration instance is solved by libvna; a successful solve must return the true parameter values and correct a device to a small multiple of the configured tolerances; failures must be EDOM with a MATH callback; the call must return (watchdog).",
     "design_ref": "DESIGN.md section 3 C02",
     "sources": ["harness/props/C02.cpp"],
-    "rule": "three generators: TRL analytic path (2x2 T8/U8/TE10/UE10, through + double reflect with one unknown R + line with unknown l, guesses within 25%), near-TRL (reflect as a single reflect), LM path (C01 scenario on every type, dims 1..3, 1..3 standard cells re-declared unknown (guess within 0.1) or correlated to their true value, tolerances 1e-4..1e-12, iteration limit 1..3 or 30..100, optional error weighting); cases kept only when the model's Jacobian incl. the unknown parameters is determining (kappa < 1e4) with enough excess equations; non-trivial = successful solve with an unknown in a partially specified standard, >= 2 unknowns, a correlated parameter, or iteration limit <= 3 (all TRL successes count); distinct = distinct choice tapes",
+    "rule": "three generators: TRL analytic path (2x2 T8/U8/TE10/UE10, through + double reflect with one unknown R + line with unknown l, guesses within 25%), near-TRL (reflect as a single reflect), LM path (C01 scenario on every type, dims 1..3, 1..3 standard cells re-declared unknown (guess within 0.1) or correlated to their true value, tolerances 1e-4..1e-12, iteration limit 1..3 or 30..100, optional error weighting); cases kept only when the model's Jacobian incl. the unknown parameters is determining (kappa < 1e4) with enough excess equations; non-trivial = successful solve with an unknown in a partially specified standard, >= 2 unknowns, a correlated parameter, or iteration limit <= 3 (all TRL successes count); distinct = distinct choice tapes; after a successful solve, 1 case in 3 (TRL) / 1 in 2 (LM) solves the same unknown handles AGAIN on another frequency grid of the same length (same vnacal_new_t after vnacal_new_set_frequency_vector, or a second vnacal_new_t of the same vnacal_t) and the values queried at the new frequencies must be the new solve's; error boxes contain exactly ideal terms (directivity / match / leakage drawn below 0.004 become 0): a TRL instance with a perfectly matched port is solved by the library's iterative path and judged with the default tolerance 1e-6 (label TRL:ideal-port)",
     "assumptions": COMMON_ASSUME + ["'within the basin' is approximated by the stated guess radius; success rate is reported in the class histogram, not asserted for the LM path", "bound 1e3*max(p_tol,et_tol) + 1e4*eps*kappa*10 + 1e-9 for parameters, 10x for the corrected device"],
     "tiers": tiers(
         quick=[{"name": "rand", "mode": "run", "count": 400, "max_size": 60, "shards": 16, "max_seconds": 75, "shrink_seconds": 60, "hang_seconds": 30}],
